@@ -9,6 +9,26 @@ diamond with default / str / int discriminator, nullable, defaults} plus naming 
 fk_name, index names, entity and attribute names of length 27..70 that differ only in their last
 character, names that differ only in case, names that clash with names Pony derives).
 
+Options of a relationship x declaring side (space.sided): every option that either attribute of a
+relationship may carry - many-to-many: table, schema-qualified table, table equal to an entity's
+table, table equal to another m2m's table, column(s) (+reverse_column(s)), fk_name (+reverse_fk_name),
+index name (+reverse_index); to-one: column(s), fk_name, index name - is declared on {both sides, only
+the first-declared side, only the second-declared side, both sides with conflicting values (table:
+two names, qualified vs. plain; columns: the same names on both sides)}, for every relationship of
+the overlay bases (pair, self-referencing, symmetric, two relationships between one pair, chain,
+inheritance), each base also with entity / attribute names flipped so that the alphabetical order
+of the two sides (which decides the side Pony processes) is the reverse of the declaration order
+(quick: flipped names only for the one-sided and conflicting declarations).
+Oracle for them: an accepted diagram uses exactly the declared name - the m2m table is the declared
+one on whichever side it was written (table-name-ignored), is not shared with an entity or another
+m2m (table-shared), conflicting declarations therefore cannot be accepted; declared link columns are
+the columns that reference the Set's target, fk_name names the foreign key over them, index= names
+the index over the columns that reference the declaring entity (when such an index exists);
+to-one: a declared column is held by the declaring attribute (also when Pony would otherwise put
+the column on the other side of a one-to-one), fk_name declared on either side names the foreign key.
+Not judged: index= on the column-less side of a one-to-one, index= for link columns that need no
+index of their own (prefix of the link table's primary key).
+
 Each diagram is rendered to class statements and given to a fresh Database on four dialects:
   sqlite    real engine: generate_mapping(create_tables=True) on a file in /dev/shm, catalog
             introspection (PRAGMA table_info / index_list / index_info / foreign_key_list,
